@@ -262,6 +262,12 @@ struct nng_aio {
 	nni_aio_expire_q *a_expire_q;
 	nni_list_node     a_expire_node; // Expiration node
 	nni_reap_node     a_reap_node;
+#ifdef NNG_VERIF
+	// Shadow state for the exactly-once monitor; protected by the
+	// expire queue mutex like the state it shadows.
+	bool     a_v_active; // nni_aio_start succeeded, not yet finished
+	unsigned a_v_done;   // completions since the operation began
+#endif
 };
 
 #endif // CORE_AIO_H
